@@ -39,7 +39,16 @@ func (c13) Gen(r *rand.Rand, tier string, run int) *core.Case {
 	//   phased: subscribe / emit / cancel / emit in phases separated by quiescence
 	//   sequential: one operation at a time (a barrier after each): nothing
 	//           overlaps, so no known finding can explain a violation there
-	switch k := r.IntN(12); {
+	churn := false
+	switch k := r.IntN(13); {
+	case k == 12:
+		// every subscriber on one connection and one signal, joining and
+		// leaving several times while events are emitted: the shared
+		// registration is created and removed again and again
+		c.Batch = "free"
+		churn = true
+		subs = 3 + r.IntN(2)
+		conns = 1
 	case k < 5:
 		c.Batch = "free"
 	case k < 8:
@@ -103,20 +112,34 @@ func (c13) Gen(r *rand.Rand, tier string, run int) *core.Case {
 		emit(2 + r.IntN(10))
 		return c
 	}
+	churnSig := int64(r.IntN(3))
 	for k := 0; k < subs; k++ {
 		conn := r.IntN(conns)
 		if c.Batch == "own" {
 			conn = k
 		}
 		n := 1 + r.IntN(3)
+		if churn {
+			n = 2 + r.IntN(3)
+		}
 		for i := 0; i < n; i++ {
-			c.Ops = append(c.Ops, core.Op{Kind: "sub", Actor: k, X: int64(r.IntN(3)), Y: int64(conn)})
+			sig := int64(r.IntN(3))
+			if churn {
+				sig = churnSig
+			}
+			c.Ops = append(c.Ops, core.Op{Kind: "sub", Actor: k, X: sig, Y: int64(conn)})
 			c.Ops = append(c.Ops, core.Op{Kind: "pause", Actor: k, X: int64(r.IntN(12))})
 			if i < n-1 || r.IntN(2) == 0 {
 				c.Ops = append(c.Ops, core.Op{Kind: "cancel", Actor: k})
 				c.Ops = append(c.Ops, core.Op{Kind: "pause", Actor: k, X: int64(r.IntN(4))})
 			}
 		}
+	}
+	if churn {
+		for i := 0; i < 8+r.IntN(16); i++ {
+			c.Ops = append(c.Ops, core.Op{Kind: "emit", Actor: 50, X: churnSig, Y: int64(r.IntN(4))})
+		}
+		return c
 	}
 	emit(3 + r.IntN(20))
 	return c
